@@ -29,6 +29,7 @@ const (
 	kFunc  // a function value (always monadic: its result is `R T`)
 	kMap   // map[string]T: an association list (Go.Map T); iteration order is never observed by translated code
 	kHeapPtr // *clients.client inside package clients: nil or an index into the heap of records (Go.Ptr)
+	kSock  // *os.File / *rsocks.rssock: a socket handle (Go.Sock; what is read and written goes through the environment)
 	kRef   // *clients.client seen from outside its package: an opaque record reference (Go.ClientRef snapshot or nil)
 	kOther
 )
@@ -39,6 +40,9 @@ func (x *X) kindOf(t types.Type) kind {
 	}
 	if strings.TrimPrefix(t.String(), "*") == "net.Interface" {
 		return kIface
+	}
+	if t.String() == "*os.File" || t.String() == "*"+modPath+"lib/rsocks.rssock" || t.String() == "*"+modPath+"lib/rsocks.rrsock" {
+		return kSock
 	}
 	if t.String() == "time.Time" {
 		return kInt // nanoseconds since the Unix epoch (monotonic reading ignored; trusted)
@@ -143,6 +147,8 @@ func (x *X) leanType(t types.Type, result bool) string {
 		return "Go.NetInterface"
 	case kRef:
 		return "(Option Go.ClientRef)"
+	case kSock:
+		return "Go.Sock"
 	case kFunc:
 		sig := t.Underlying().(*types.Signature)
 		var parts []string
@@ -250,6 +256,8 @@ func (x *X) zero(t types.Type) string {
 		return "Go.NetInterface.zero"
 	case kRef:
 		return "(none : Option Go.ClientRef)"
+	case kSock:
+		return "()"
 	case kList, kMap:
 		if a, ok := t.Underlying().(*types.Array); ok {
 			return fmt.Sprintf("(List.replicate %d %s)", a.Len(), x.zero(a.Elem()))
@@ -315,8 +323,11 @@ func leanIdent(s string) string {
 // dropped: parameters that carry nothing the translated code computes with (logging handles, contexts).
 func dropped(t types.Type) bool {
 	switch strings.TrimPrefix(t.String(), "*") {
-	case "context.Context", "log.Logger", modPath + "lib/server/ylog.Ylog":
+	case "context.Context", "context.CancelFunc", "log.Logger", modPath + "lib/server/ylog.Ylog", "golang.org/x/time/rate.Limiter":
 		return true
+	}
+	if t.String() == "[]interface{}" || t.String() == "[]any" || t.String() == "interface{}" || t.String() == "any" {
+		return true // arguments of logging calls
 	}
 	return false
 }
